@@ -287,7 +287,7 @@ def check_comparison_trigger(check, an: Analysis, rule: str):
         if not path.normal:
             continue
         tests = [e for e in path.events if e.kind == 'test'
-                 and e.get('key') == ('truth', 'self._test()')]
+                 and e.get('key') == ('truth', 'self.%s()' % _test_name(an))]
         triggered = any(is_call_to(e, '__trigger__') for e in path.events)
         if tests:
             seen[key_truth(tests[0])] = triggered
@@ -365,13 +365,26 @@ def check_resource_comparisons(check, an: Analysis, rule: str):
                        'levels made of the dict given and nothing else: %s' % sorted(forms))
 
 
+def _test_name(an: Analysis) -> str:
+    """the name of the predicate a comparison evaluates: the parameterless `self.<name>()`
+    that its __bool__ returns (a thunk stored by the constructor, or a method)"""
+    boolm = an.method(COMPARISON, '__bool__')
+    returns = [n for n in ast.walk(boolm.node) if isinstance(n, ast.Return)]
+    if len(returns) == 1 and isinstance(returns[0].value, ast.Call) and \
+            not returns[0].value.args and not returns[0].value.keywords and \
+            isinstance(returns[0].value.func, ast.Attribute) and \
+            ast.unparse(returns[0].value.func.value) == 'self':
+        return returns[0].value.func.attr
+    return '_test'
+
+
 def check_comparison_truth(check, an: Analysis, rule: str):
     """the truth of a comparison is computed from the current values whenever it is asked
     for (never remembered from an earlier look)"""
     boolm = an.method(COMPARISON, '__bool__')
     returns = [n for n in ast.walk(boolm.node) if isinstance(n, ast.Return)]
     check.instance(rule, 'AsyncComparison.__bool__==_test', len(returns) == 1 and
-                   ast.unparse(returns[0].value) == 'self._test()', where_fn(boolm),
+                   ast.unparse(returns[0].value) == 'self.%s()' % _test_name(an), where_fn(boolm),
                    'the truth value and the wake-up test are the same predicate')
 
 
@@ -407,12 +420,12 @@ def _comparison_tests(an: Analysis, init) -> set:
     replaced by what the constructor stored in them
     """
     forms = set()
-    method = an.p.find_method(COMPARISON, '_test')
+    method = an.p.find_method(COMPARISON, _test_name(an))
     callee = Callee(init, COMPARISON)
     if method is None:
         for path in an.paths(callee):
             for index, event in enumerate(path.events):
-                if event.kind == 'store' and event.get('path') == 'self._test':
+                if event.kind == 'store' and event.get('path') == 'self.%s' % _test_name(an):
                     value = event.data.get('value')
                     found = rules.value_expr(path, index, value) if value is not None \
                         else None
